@@ -32,6 +32,7 @@ type outcome struct {
 	Trace     map[string]int64
 	Dur       time.Duration
 	PostCrash bool
+	Sabotaged bool // the child flipped bits in at least one completed D2H request
 	Tail      string
 }
 
@@ -56,17 +57,21 @@ func crashSymptom(out string) (string, string) {
 		if k := strings.Index(msg, " [recovered]"); k >= 0 {
 			msg = msg[:k]
 		}
-		norm := reNum.ReplaceAllString(msg, "#")
-		norm = strings.Join(strings.Fields(norm), "-")
+		norm := reNum.ReplaceAllString(msg, " ")
 		norm = strings.Map(func(r rune) rune {
-			if r == '|' || r == '"' {
-				return -1
+			switch {
+			case r >= 'a' && r <= 'z', r >= '0' && r <= '9':
+				return r
+			case r >= 'A' && r <= 'Z':
+				return r + 32
 			}
-			return r
+			return ' '
 		}, norm)
-		if len(norm) > 70 {
-			norm = norm[:70]
+		f := strings.Fields(norm)
+		if len(f) > 8 {
+			f = f[:8]
 		}
+		norm = strings.Join(f, "-")
 		return norm, t
 	}
 	return "exit-without-panic-line", ""
@@ -143,6 +148,7 @@ func execCase(scratch string, cs runCase, timeout time.Duration) (o outcome) {
 		o.Detail = fmt.Sprintf("%v exit=%d", notes["infra"], res.ExitCode)
 	case len(notes["verified"]) > 0:
 		o.Verdict = "verified"
+		o.Sabotaged = len(notes["sabotaged"]) > 0
 		if _, done := notes["done"]; !done {
 			o.PostCrash = true // died after Verify() returned (teardown); not a C01 matter
 		}
@@ -159,6 +165,7 @@ func execCase(scratch string, cs runCase, timeout time.Duration) (o outcome) {
 		o.Verdict = "failed"
 		out, _ := os.ReadFile(res.OutPath)
 		sym, line := crashSymptom(string(out))
+		o.Sabotaged = len(notes["sabotaged"]) > 0
 		if len(notes["run_returned"]) > 0 {
 			// Run() returned, the child died inside Verify()
 			o.Symptom = "verify-failed"
@@ -173,7 +180,13 @@ func execCase(scratch string, cs runCase, timeout time.Duration) (o outcome) {
 var keepDirs = os.Getenv("C01_KEEP") != ""
 
 func key(cs runCase, symptom string) string {
-	return fmt.Sprintf("C01|%s|%s|%s|%s|%s|%s", cs.Workload, cs.Class.Arch, cs.Class.mode(), cs.Class.gpuClass(), cs.Class.mem(), symptom)
+	k := fmt.Sprintf("C01|%s|%s|%s|%s|%s|%s", cs.Workload, cs.Class.Arch, cs.Class.mode(), cs.Class.gpuClass(), cs.Class.mem(), symptom)
+	if w := findWorkload(cs.Workload); w != nil {
+		if t := w.quarantine(cs.Params, cs.Class); t != "" {
+			k += "|" + t
+		}
+	}
+	return k
 }
 
 // ---------------------------------------------------------------------------
@@ -191,7 +204,7 @@ func mkCase(w *workload, p []int, c class, tag string, seed int64) runCase {
 func admissibleSizes(w *workload, c class, costCap int) [][]int {
 	var out [][]int
 	for _, p := range w.Sizes {
-		if !w.Adm(p, c) {
+		if !w.Adm(p, c) || w.quarantine(p, c) != "" {
 			continue
 		}
 		if costCap > 0 && len(out) > 0 && w.Cost(p) > costCap {
@@ -259,6 +272,13 @@ func planQuick(ck *vlib.Check, ws []*workload) []runCase {
 		cases = append(cases, cs)
 		for _, c := range w.classes() {
 			if c.Timing || c.NGPU > 1 || c.UnifiedMem {
+				ss := admissibleSizes(w, c, 0)
+				if len(ss) == 0 {
+					continue // class-wide quarantine
+				}
+				if c.Timing && w.Cost(ss[0]) > 2_000_000 {
+					continue // dnn training in timing mode: minutes per run, thorough tier only
+				}
 				pool = append(pool, pair{w, c})
 			}
 		}
@@ -316,6 +336,8 @@ func planThorough(ck *vlib.Check, ws []*workload) []runCase {
 			c = class{Arch: "cdna3", Timing: true, GPUType: "mi300a", NGPU: 1}
 		}
 		ss := admissibleSizes(w, c, timingCostCap/3)
+		base := mkCase(w, sabotageSize(w, ss), c, "sabotage-"+w.Name+"-base", 77)
+		cases = append(cases, base)
 		cs := mkCase(w, sabotageSize(w, ss), c, "sabotage-"+w.Name, 77)
 		cs.Sabotage = true
 		cases = append(cases, cs)
@@ -365,7 +387,15 @@ func main() {
 		}
 		for _, c := range w.classes() {
 			if len(admissibleSizes(w, c, 0)) == 0 {
-				ck.Inconclusive(fmt.Sprintf("table: %s has no admissible size in class %s", w.Name, c))
+				anyAdm := false
+				for _, p := range w.Sizes {
+					anyAdm = anyAdm || w.Adm(p, c)
+				}
+				if !anyAdm {
+					ck.Inconclusive(fmt.Sprintf("table: %s has no admissible size in class %s", w.Name, c))
+				} else {
+					ck.Distinct("quarantined_classes", w.Name+"|"+c.String())
+				}
 			}
 		}
 	}
@@ -422,6 +452,12 @@ func main() {
 
 	sens := map[string]string{}
 	var slow []string
+	baseOK := map[string]bool{}
+	for _, o := range outs {
+		if strings.HasSuffix(o.Case.ID, "-base") && strings.HasPrefix(o.Case.ID, "sabotage-") {
+			baseOK[o.Case.Workload] = o.Verdict == "verified"
+		}
+	}
 	for _, o := range outs {
 		cs := o.Case
 		w := findWorkload(cs.Workload)
@@ -432,12 +468,14 @@ func main() {
 		if cs.Sabotage {
 			ck.Count("sabotage_runs", 1)
 			switch {
-			case o.Verdict == "verified" && o.Trace["sabotage_words_flipped"] > 0:
+			case !baseOK[cs.Workload]:
+				sens[cs.Workload] = "not decided (the same case fails without sabotage)"
+			case o.Verdict == "verified" && o.Sabotaged:
 				sens[cs.Workload] = "INSENSITIVE (oracle passed although read-back data was corrupted)"
 				ck.Count("sabotage_oracle_insensitive", 1)
 			case o.Verdict == "verified":
 				sens[cs.Workload] = "not decided (no D2H request crossed the DMA path)"
-			case o.Verdict == "failed":
+			case o.Verdict == "failed" && o.Sabotaged:
 				sens[cs.Workload] = "sensitive (" + o.Symptom + ")"
 				ck.Count("sabotage_oracle_sensitive", 1)
 			default:
